@@ -12,8 +12,9 @@
      group_ok g   non-empty hash bytes, len and file count fit u64, every path path_ok
      header_ok h  version d+.d+.d+, ts_ok timestamp, arguments non-empty byte strings, base dir
                   path_ok, stats present with u64 fields
-   K4 g k        the cut k lies strictly inside the LAST path line of the text of group g:
-                  length (write_group g) - length (write_path_line (last (g_files g) [])) < k *)
+   K4 (a cut inside the last path line of a group was accepted with the shortened path) was repaired in
+   /repo commit 2eccdb7: read_paths requires the line feed of every path line.  The truncation theorem is
+   now the full statement; the old witness is kept as a regression Example. *)
 From FV Require Import Base TextModel TextProofs TextProofs2 TextProofs3 TextProofs4 TextProofs5 TextProofs6.
 Open Scope N_scope.
 
@@ -45,10 +46,10 @@ Theorem C10_text_roundtrip :
 Proof. exact text_roundtrip. Qed.
 Print Assumptions C10_text_roundtrip.
 
-(* Truncation: a report cut strictly inside the text of a group (at least one byte of the group
-   present, at least one missing), other than inside the group's last path line (K4), is read as:
-   the header, exactly the complete groups before the cut, then an error. *)
-Theorem C10_truncation_except_K4 :
+(* Truncation: EVERY proper prefix of a written report that ends strictly inside the text of a group (at
+   least one byte of the group present, at least one missing — including a missing final line feed) is read
+   as: the header, exactly the complete groups before the cut, then an error. *)
+Theorem C10_truncation :
   forall (human : N -> list N) (TS : Type) (fmt_ts : TS -> list N) (parse_ts : list N -> option TS)
          (ts_ok : TS -> Prop),
   (forall n, human n <> [] /\
@@ -57,30 +58,26 @@ Theorem C10_truncation_except_K4 :
                         parse_ts (str_trim (fmt_ts t)) = Some t) ->
   forall (h : header TS) (gs : list group) (g : group) (k : nat),
   header_ok TS ts_ok h -> Forall group_ok gs -> group_ok g -> g_files g <> [] ->
-  (0 < k < length (write_group human g))%nat -> ~ K4 human g k ->
+  (0 < k < length (write_group human g))%nat ->
   read_report TS parse_ts
     (write_header human TS fmt_ts h ++ flat_map (write_group human) gs ++ firstn k (write_group human g))
   = RepText TS h gs GErr.
 Proof. exact truncation. Qed.
-Print Assumptions C10_truncation_except_K4.
+Print Assumptions C10_truncation.
 
-(* K4 (known finding, report.rs read_paths): a cut inside the last path line is accepted and the
-   shortened path is delivered as if it were complete.  Witness: group with the one path /ab,
-   cut before the final "b" and the line feed. *)
-Theorem C10_K4_witness :
-  exists (human : N -> list N) (TS : Type) (fmt_ts : TS -> list N) (parse_ts : list N -> option TS)
-         (ts_ok : TS -> Prop),
-  (forall n, human n <> [] /\
-             Forall (fun b => 32 <= b < 127 /\ b <> 42 /\ b <> 41 /\ b <> 58) (human n)) /\
-  (forall t, ts_ok t -> Forall (fun b => 32 <= b < 127) (fmt_ts t) /\
-                        parse_ts (str_trim (fmt_ts t)) = Some t) /\
-  exists (h : header TS) (g : group) (k : nat),
-    header_ok TS ts_ok h /\ group_ok g /\ g_files g <> [] /\
-    (0 < k < length (write_group human g))%nat /\ K4 human g k /\
-    read_report TS parse_ts (write_header human TS fmt_ts h ++ firstn k (write_group human g))
-    = RepText TS h [mkGroup (g_hash g) (g_len g) [[47; 97]]] GEnd.
-Proof. exact k4_witness. Qed.
-Print Assumptions C10_K4_witness.
+(* Regression for K4: the old witness (one path /ab, cut before the final "b" and the line feed, k = 27) and
+   the same report with only the final line feed missing (k = 28, e.g. a hand-edited file) are rejected. *)
+Example C10_K4_regression :
+  read_report unit parse_demo
+    (write_header human_demo unit fmt_demo k4_header ++ firstn 27%nat (write_group human_demo k4_group))
+  = RepText unit k4_header [] GErr /\
+  read_report unit parse_demo
+    (write_header human_demo unit fmt_demo k4_header ++ firstn 28%nat (write_group human_demo k4_group))
+  = RepText unit k4_header [] GErr /\
+  read_report unit parse_demo
+    (write_header human_demo unit fmt_demo k4_header ++ write_group human_demo k4_group)
+  = RepText unit k4_header [k4_group] GEnd.
+Proof. vm_compute. repeat split. Qed.
 
 (* Non-vacuity: the hypotheses are satisfiable and the theorems apply to a non-trivial report
    (paths with trailing space, line feed, invalid UTF-8; an argument that needs $'...' quoting). *)
